@@ -22,6 +22,7 @@ RULE = ('data sections of every bit length mod 16 x editions 2,3,4 x section 2 a
         '{recompute, honour declared lengths} x surplus octets 0..3(5) x trailing bytes; non-trivial when a '
         'section needed padding or carried surplus/trailing bytes; distinct by (residue, edition, sec2, mode, '
         'surplus, fault); total-length field off by +-1..4 (decoder span); declared section lengths down to 1 and 0; one odd surplus octet in editions 2-3 (honour mode)')
+RULE += '; added with rounds 10-12: decodes with per-call options in shuffled order on the same and another decoder (metadata-only, lenient, default, unwired); messages decoded while scans are suspended (mid-scan scenarios); coders constructed positionally by the published signatures on odd shards; twins'
 ASSUMPTIONS = ['section 3 surplus is limited to 0/1 octet (its descriptor count is derived from its length)',
                'in honour mode editions <=3 are given even declared lengths only',
                'any exception satisfies "refused"/"reported as an error"']
